@@ -91,6 +91,14 @@ func PriorShapeReq(shape string) *spec.Req {
 	return nil
 }
 
+// PriorIntact reports whether the response returned by the earlier call still reads the same after the judged call ("" if so).
+func (o Outcome) PriorIntact() string {
+	if o.PriorRespAtReturn != nil && o.PriorRespAfter != nil && string(o.PriorRespAtReturn) != string(o.PriorRespAfter) {
+		return fmt.Sprintf("the response %x returned by an earlier call on the same client reads %x after this call", o.PriorRespAtReturn, o.PriorRespAfter)
+	}
+	return ""
+}
+
 // HookCall is one recorded hook invocation.
 type HookCall struct {
 	Kind string // write | read | parse
@@ -141,14 +149,15 @@ type Outcome struct {
 	// Follow: re-encodings of Resp taken when the call returned and after a later call on the same client
 	RespAtReturn, RespAfterFollow []byte
 	FollowErr                     error
+	// Prior: re-encodings of the response the earlier call returned (if it succeeded), taken when it returned and after the judged call
+	PriorRespAtReturn, PriorRespAfter []byte
 }
 
 // HangCeiling is how long a call may run before it is declared hung.
 var HangCeiling = 10 * time.Second
 
 // Run executes the scenario.
-func Run(sc Scenario) Outcome {
-	var out Outcome
+func Run(sc Scenario) (out Outcome) {
 	f := FramingOf(sc.Kind)
 	var req packet.Request
 	if !sc.NilRequest {
@@ -287,9 +296,13 @@ func Run(sc Scenario) Outcome {
 		}
 		script.Reset(full, pev, false)
 		pch := make(chan struct{})
+		var priorResp packet.Response
 		go func() {
 			defer func() { _ = recover(); close(pch) }()
-			_, _ = do(context.Background(), preq)
+			r, err := do(context.Background(), preq)
+			if err == nil && !cat.IsNilValue(r) {
+				priorResp = r
+			}
 		}()
 		select {
 		case <-pch:
@@ -299,6 +312,10 @@ func Run(sc Scenario) Outcome {
 			return out
 		}
 		script.Reset(append([]byte(nil), sc.Stream...), append([]xport.Event(nil), sc.Events...), sc.WriteErr)
+		if priorResp != nil {
+			out.PriorRespAtReturn = append([]byte(nil), priorResp.Bytes()...)
+			defer func() { out.PriorRespAfter = append([]byte(nil), priorResp.Bytes()...) }()
+		}
 		// observations are about the judged call only
 		if rec != nil {
 			rec.Calls = nil
@@ -493,7 +510,7 @@ func Model(kind string, stream []byte, events []xport.Event, E int) Stop {
 				s.EventsUsed = i + 1
 				return s
 			}
-		case "ioerr":
+		case "ioerr", "ioerr-timeout":
 			return Stop{Total: total, EventsUsed: i + 1}
 		}
 	}
